@@ -241,7 +241,7 @@ func (f *frame) mergeReturns(st *State, base int, rets []retPath, callee *ssa.Fu
 		for _, r := range rets {
 			v := r.st.cells[c]
 			alts = append(alts, v)
-			if fmt.Sprint(v) != fmt.Sprint(rets[0].st.cells[c]) {
+			if !sameVal(v, rets[0].st.cells[c]) {
 				same = false
 			}
 		}
@@ -265,7 +265,7 @@ func (f *frame) mergeReturns(st *State, base int, rets []retPath, callee *ssa.Fu
 			h := r.st.heap[k]
 			if i == 0 {
 				first = h
-			} else if strings.Join(h, " ") != strings.Join(first, " ") {
+			} else if !sameTerms(h, first) {
 				same = false
 			}
 		}
@@ -305,7 +305,7 @@ func (f *frame) mergeReturns(st *State, base int, rets []retPath, callee *ssa.Fu
 			m := r.st.mem[rg]
 			if i == 0 {
 				first = m
-			} else if strings.Join(m, " ") != strings.Join(first, " ") {
+			} else if !sameTerms(m, first) {
 				same = false
 			}
 		}
@@ -351,7 +351,7 @@ func (ex *Exec) sortOfHeapComp(key string, ci int) string {
 func (ex *Exec) mergeVals(st *State, conds []T, alts []Val, t types.Type, hint string, rets []retPath) Val {
 	allSame := true
 	for _, a := range alts[1:] {
-		if fmt.Sprint(a) != fmt.Sprint(alts[0]) {
+		if !sameVal(a, alts[0]) {
 			allSame = false
 		}
 	}
@@ -565,6 +565,24 @@ func (f *frame) rangeInfo(st *State, li *loopInfo) (idx *Cell, ln T, ok bool) {
 		}
 	}
 	return idx, ln, idx != nil && ln != ""
+}
+
+// concreteRange: a range loop over a collection of concrete length (literal tables, captured
+// signature lists after init) can be unrolled exactly.
+func (f *frame) concreteRange(st *State, li *loopInfo) bool {
+	if !li.isRange {
+		return false
+	}
+	for _, ins := range li.header.Instrs {
+		if b, isB := ins.(*ssa.BinOp); isB && b.Op.String() == "<" {
+			if v, has := st.regs[b.Y]; has {
+				if n, ok := isNum(v.(VInt).T); ok && n.IsInt64() && n.Int64() <= 64 {
+					return true
+				}
+			}
+		}
+	}
+	return false
 }
 
 // storesInLoop computes what a loop may modify: cells (by alloc), heap fields, and whether
@@ -876,4 +894,105 @@ func lexLess(nw, old []T) T {
 		alts = append(alts, tAnd(c...))
 	}
 	return tAnd(tAnd(nonneg...), tOr(alts...))
+}
+
+func sameTerms(a, b []T) bool {
+	if len(a) != len(b) {
+		return false
+	}
+	if len(a) > 0 && &a[0] == &b[0] {
+		return true
+	}
+	for i := range a {
+		if a[i] != b[i] {
+			return false
+		}
+	}
+	return true
+}
+
+// sameVal: cheap structural equality of symbolic values (terms compared as strings).
+func sameVal(a, b Val) bool {
+	switch x := a.(type) {
+	case VInt:
+		y, ok := b.(VInt)
+		return ok && x.T == y.T
+	case VBool:
+		y, ok := b.(VBool)
+		return ok && x.T == y.T
+	case VRef:
+		y, ok := b.(VRef)
+		return ok && x.T == y.T
+	case VOpaque:
+		y, ok := b.(VOpaque)
+		return ok && x.T == y.T
+	case VFunc:
+		y, ok := b.(VFunc)
+		return ok && x.ID == y.ID
+	case VIface:
+		y, ok := b.(VIface)
+		return ok && x.ID == y.ID
+	case VNilPtr:
+		_, ok := b.(VNilPtr)
+		return ok
+	case VCellPtr:
+		y, ok := b.(VCellPtr)
+		if !ok || x.C != y.C || len(x.Path) != len(y.Path) {
+			return false
+		}
+		for i := range x.Path {
+			if x.Path[i] != y.Path[i] {
+				return false
+			}
+		}
+		return true
+	case VSlice:
+		y, ok := b.(VSlice)
+		return ok && x.R == y.R && x.Off == y.Off && x.Len == y.Len && x.Cap == y.Cap
+	case VStruct:
+		y, ok := b.(VStruct)
+		if !ok || len(x.F) != len(y.F) {
+			return false
+		}
+		for i := range x.F {
+			if !sameVal(x.F[i], y.F[i]) {
+				return false
+			}
+		}
+		return true
+	case VMap:
+		y, ok := b.(VMap)
+		if !ok || x.ID != y.ID || len(x.Keys) != len(y.Keys) {
+			return false
+		}
+		for i := range x.Keys {
+			if x.Keys[i] != y.Keys[i] || !sameVal(x.Vals[i], y.Vals[i]) {
+				return false
+			}
+		}
+		return true
+	case VTuple:
+		y, ok := b.(VTuple)
+		if !ok || len(x.E) != len(y.E) {
+			return false
+		}
+		for i := range x.E {
+			if !sameVal(x.E[i], y.E[i]) {
+				return false
+			}
+		}
+		return true
+	case VGlobalPtr:
+		y, ok := b.(VGlobalPtr)
+		return ok && x.G == y.G
+	case VElemPtr:
+		y, ok := b.(VElemPtr)
+		return ok && x.S.R == y.S.R && x.S.Off == y.S.Off && x.Idx == y.Idx
+	case VFieldPtr:
+		y, ok := b.(VFieldPtr)
+		return ok && x.Ref == y.Ref && x.Field == y.Field
+	case nil:
+		return b == nil
+	}
+	return false
 }
